@@ -457,11 +457,14 @@ class OpRunner:
         self.interp.register_implementations(E.ArithFunctions())
         self.idxw = idxw
         self.unsupported = set()
+        self.unsup_ids = set()
         self.keep = []  # strong refs to ops
 
     def case(self, label, op, inputs, cell, replay):
         """One evaluation. Returns False when the op has no interpretation function (caller may stop)."""
         E, R, O = self.E, self.R, self.O
+        if id(op) in self.unsup_ids:
+            return False
         R.res["evaluations"] += 1
         ref = O.ref(op, inputs)
         if ref[0] != "ok":
@@ -475,6 +478,8 @@ class OpRunner:
             msg = str(e)
             if "Could not find interpretation function" in msg:
                 self.unsupported.add(label)
+                self.unsup_ids.add(id(op))
+                self.keep.append(op)
                 R.inc("unsupported_op_evaluations")
                 R.add("unsupported_ops", op.name)
                 return False
@@ -824,6 +829,7 @@ class Gen15(genprog.Gen):
         self.safe_shift = safe_shift
         self.helpers = []  # (name, argtypes, rettypes)
         self.nlabel = 0
+        self.ctl = set()  # names of values defined by control-flow constructs (preferred as function results)
         self.ibin = [o for o in self.bin_ops if self.ok("arith." + o)]
         self.fbin = [o for o in FBIN_ALL if self.ok("arith." + o)]
         self.casts = [o for o in ("extsi", "extui", "trunci", "index_cast") if self.ok("arith." + o)]
@@ -996,7 +1002,25 @@ class Gen15(genprog.Gen):
                 lines.append(f"{ind}}} else {{")
         lines.append(f"{ind}}}")
         env.extend(zip(vs, ts))
+        self.ctl.update(vs)
         return True
+
+    def recur(self, e2, lines, ind, acc, t):
+        """A value of type t that (usually) depends on the loop-carried value `acc`, so that a loop which does not
+        thread its carried values / runs a wrong number of iterations changes the result."""
+        rng = self.rng
+        if t in W:
+            ops = [o for o in ("addi", "addi", "subi", "muli", "xori", "ori", "andi") if self.ok("arith." + o)]
+        else:
+            ops = [o for o in ("addf", "addf", "subf", "mulf") if self.ok("arith." + o)]
+        if not ops or rng.random() < 0.15:
+            return self.pick(e2, t, lines, ind)
+        x = self.pick(e2, t, lines, ind)
+        v = self.fresh()
+        a, b = (acc, x) if rng.random() < 0.7 else (x, acc)
+        lines.append(f"{ind}{v} = arith.{rng.choice(ops)} {a}, {b} : {t}")
+        e2.append((v, t))
+        return v
 
     def loop_bound(self, env, lines, ind, t="index"):
         rng = self.rng
@@ -1029,10 +1053,13 @@ class Gen15(genprog.Gen):
         e2 = list(env) + [(iv, it)] + list(zip(accs, ts))
         self.body(e2, lines, ind + "  ", depth + 1, (1, 2, 3))
         if k:
-            ys = [self.pick(e2, t, lines, ind + "  ") for t in ts]
+            ys = [self.recur(e2, lines, ind + "  ", a, t) for a, t in zip(accs, ts)]
+            if k == 2 and ts[0] == ts[1] and rng.random() < 0.3:
+                ys.reverse()  # carried values swap places every iteration
             lines.append(f"{ind}  scf.yield {', '.join(ys)} : {', '.join(ts)}")
         lines.append(f"{ind}}}")
         env.extend(zip(vs, ts))
+        self.ctl.update(vs)
         return True
 
     def s_while(self, env, lines, ind, depth):
@@ -1060,10 +1087,11 @@ class Gen15(genprog.Gen):
         self.body(e_after, lines, ind + "  ", depth + 1, (1, 2))
         nxt = self.fresh()
         lines.append(f"{ind}  {nxt} = arith.addi {i2}, {c1} : index")
-        y = self.pick(e_after, t, lines, ind + "  ")
+        y = self.recur(e_after, lines, ind + "  ", acc2, t)
         lines.append(f"{ind}  scf.yield {nxt}, {y} : index, {t}")
         lines.append(f"{ind}}}")
         env.extend([(r_i, "index"), (r_a, t)])
+        self.ctl.update((r_i, r_a))
         return True
 
     def s_call(self, env, lines, ind):
@@ -1088,9 +1116,11 @@ class Gen15(genprog.Gen):
         if len(rts) == 1:
             lines.append(f"{ind}{v} = func.call @{name}({', '.join(args)}) : {sig}")
             env.append((v, rts[0]))
+            self.ctl.add(v)
         else:
             lines.append(f"{ind}{v}:{len(rts)} = func.call @{name}({', '.join(args)}) : {sig}")
             env.extend((f"{v}#{k}", t) for k, t in enumerate(rts))
+            self.ctl.update(f"{v}#{k}" for k in range(len(rts)))
         return True
 
     def stmt(self, env, lines, ind, depth):
@@ -1135,6 +1165,7 @@ class Gen15(genprog.Gen):
             lines.append(f"{ind}cf.br ^{L}({a} : {t})")
             lines.append(f"^{L}({x}: {t}):")
             env.append((x, t))
+            self.ctl.add(x)
         elif kind == "same":
             L, x = self.label(), self.fresh()
             c = self.pick(env, "i1", lines, ind)
@@ -1142,6 +1173,7 @@ class Gen15(genprog.Gen):
             lines.append(f"{ind}cf.cond_br {c}, ^{L}({a} : {t}), ^{L}({b} : {t})")
             lines.append(f"^{L}({x}: {t}):")
             env.append((x, t))
+            self.ctl.add(x)
         elif kind in ("diamond", "triangle"):
             c = self.pick(env, "i1", lines, ind)
             t2 = rng.choice(self.types())
@@ -1170,6 +1202,7 @@ class Gen15(genprog.Gen):
                 lines.append(f"{ind}cf.br ^{LJ}({y} : {t2})")
             lines.append(f"^{LJ}({z}: {t2}):")
             env.append((z, t2))
+            self.ctl.add(z)
         else:  # counted loop through a back edge
             n = self.loop_bound(env, lines, ind)
             c0 = self.small_const(lines, ind, 0, "index")
@@ -1187,10 +1220,11 @@ class Gen15(genprog.Gen):
             self.body(e2, lines, ind, 1, (1, 2, 3))
             i2 = self.fresh()
             lines.append(f"{ind}{i2} = arith.addi {i}, {c1} : index")
-            y = self.pick(e2, t, lines, ind)
+            y = self.recur(e2, lines, ind, acc, t)
             lines.append(f"{ind}cf.br ^{LH}({y}, {i2} : {t}, index)")
             lines.append(f"^{LX}({r}: {t}):")
             env.append((r, t))
+            self.ctl.add(r)
 
     def func(self, name="main", nstmts=None, cfg=False, nargs=None):
         rng = self.rng
@@ -1206,7 +1240,9 @@ class Gen15(genprog.Gen):
         else:
             for _ in range(n):
                 self.stmt(env, lines, "  ", 0)
-        rets = [rng.choice(env) for _ in range(rng.randint(1, 3))] if env else []
+        ctl = [x for x in env if x[0] in self.ctl]
+        rets = [rng.choice(ctl) if ctl and rng.random() < 0.65 else rng.choice(env)
+                for _ in range(rng.randint(1, 4))] if env else []
         if not rets:
             rets = [(self.const("i32", lines, "  "), "i32")]
         sig = ", ".join(f"{a}: {t}" for a, t in args)
@@ -1221,7 +1257,7 @@ class Gen15(genprog.Gen):
         ind = "    "
         e2 = [("%n", "index"), ("%a", t)]
         self.body(e2, lines, ind, 2, (1, 2))
-        b = self.pick(e2, t, lines, ind)
+        b = self.recur(e2, lines, ind, "%a", t)
         text = (f"func.func @{name}(%n: index, %a: {t}) -> {t} {{\n"
                 f"  %rc0 = arith.constant 0 : index\n  %rc1 = arith.constant 1 : index\n"
                 f"  %stop = arith.cmpi sle, %n, %rc0 : index\n"
